@@ -177,6 +177,9 @@ def _record_traces(ctx, b, path):
             if sum(w) == 0:
                 continue
             for n in range(1, N + 1):
+              # where rounding the shares does not give n the helper corrects at RANDOM: those calls are repeated (fresh draws)
+              deterministic = sum(int(round(x / sum(w) * n)) for x in w) == n
+              for rep in range(1 if deterministic else (4 if ctx.tier == "quick" else 12)):
                 d = MeasurementOutcomeDistribution({o: x / sum(w) for o, x in zip(outcomes, w)})
                 before = dict(d.distribution_dict)
                 try:
